@@ -35,6 +35,29 @@ def parse_stream(b, hdr=16):
     return bytes(b[:64]), fields, bytes(b[pos:])
 
 
+def parse_archive(b, hdr=16, trailer=12):
+    """archive file -> (header, [field list of snapshot 0, field list of blob 1, ...]); every blob ends with END + trailer"""
+    header, f0, rest = parse_stream(b, hdr)
+    blobs = [f0]
+    pos = len(b) - len(rest) + trailer
+    while pos + hdr <= len(b):
+        fields = []
+        while True:
+            if pos + hdr > len(b):
+                raise StreamError("blob without END")
+            t, = struct.unpack_from("<I", b, pos)
+            sz, = struct.unpack_from("<Q", b, pos + 8)
+            pos += hdr
+            if t == END_ID:
+                fields.append((t, b""))
+                break
+            fields.append((t, bytes(b[pos:pos + sz])))
+            pos += sz
+        blobs.append(fields)
+        pos += trailer
+    return header, blobs
+
+
 def frame(header, fields, tail, pad=b"\0\0\0\0"):
     out = [header]
     for t, p in fields:
@@ -774,6 +797,8 @@ def case_dims(cfg, path=None, kind="one"):
             d.append("histories:add_remove")
         if "sync" in cfg.get("pre", []) + cfg.get("post", []):
             d.append("histories:explicit_synchronize")
+    if cfg.get("gap") and cfg["gap"] != "step":
+        d.append("histories:archive_gap_" + cfg["gap"])
     if cfg.get("dt0"):
         d.append("histories:rejected_first_steps")
     if cfg.get("system") in ("close", "peri", "swarm"):
@@ -810,7 +835,7 @@ DIMS_COMMON = ["roles:testparticle_type0", "roles:testparticle_type1", "roles:ma
                "variational:test_particle", "variational:megno", "options:safe_mode0", "options:keep_unsynchronized", "options:corrector",
                "options:kernel_or_coordinates", "options:adaptive_or_scales_nondefault", "options:G_softening", "time:dt_negative",
                "time:integrate", "time:integrate_eft0", "time:integrate_split", "time:integrate_reverse", "time:t_far_from_zero",
-               "callbacks:additional_forces", "callbacks:additional_forces_vel", "callbacks:heartbeat", "callbacks:pre", "callbacks:post", "callbacks:mercurius_L",
+               "callbacks:additional_forces", "callbacks:additional_forces_vel", "callbacks:heartbeat", "callbacks:pre", "callbacks:post", "callbacks:mercurius_L", "histories:archive_gap_reset", "histories:archive_gap_remove_step", "histories:archive_gap_switch_reset_step", "histories:archive_gap_reset_step",
                "callbacks:collision_resolve_named", "callbacks:collision_resolve_callable", "histories:rejected_first_steps",
                "histories:close_encounter_or_pericentre", "histories:unsynchronised_save", "geometry:moving_com", "geometry:hyperbolic_body",
                "geometry:shear_boundary_ghost_boxes", "geometry:nonsquare_rootboxes_face", "geometry:boundary_open", "geometry:boundary_periodic",
@@ -831,6 +856,7 @@ VAR_INTEGS = {"whfast_jacobi": ("order1", "megno"),      # "WHFast/MEGNO only su
 BOX_MODULES = ("box_tree_tree_periodic", "box_linetree_basic_open", "boxdense_direct_merge", "boxdense_tree_hardsphere")
 COLLIDE_MODULES = ("collide_direct_merge", "collide_line_callable") + BOX_MODULES
 TREE_MODULES = ("box_tree_tree_periodic", "box_linetree_basic_open", "boxdense_tree_hardsphere")
+ARCHIVE_PATHS = ("sa_index", "sim_file_snapshot", "bytes_archive")
 FACTORS = OrderedDict([
     ("integ", ["whfast_jacobi", "whfast_dh", "whfast_whds", "whfast_corr11", "whfast_lazy", "saba", "eos", "ias15", "mercurius", "trace", "bs", "janus", "leapfrog"]),
     ("safe", ["na", 0, 1]),
@@ -844,6 +870,10 @@ FACTORS = OrderedDict([
     ("event", ["none", "removal", "sync", "dt_change", "snapshot_write", "rescale", "merge", "rejected", "encounter"]),
     ("post", ["none", "add", "remove", "mass", "dt", "sync", "switch_reset"]),
     ("path", ["buffer", "file", "copy", "pickle", "sa_index", "sim_file_snapshot", "bytes_archive"]),
+    # what happens to the ORIGINAL between snapshot 0 and the difference-encoded snapshot that is restored (archive paths):
+    # a plain step, reset_integrator() (every integrator array of snapshot 0 VANISHES: size-0 headers in the delta),
+    # removal of a particle (arrays shrink; MERCURIUS / TRACE reset IAS15 / BS), integrator switch with reset
+    ("gap", ["na", "step", "reset", "reset_step", "remove_step", "switch_reset_step"]),
     ("cb", ["none", "additional_forces", "heartbeat_pre", "post"]),
     ("save_after", [0, 1, 7]),
     ("kind", ["one", "twin"]),
@@ -877,6 +907,10 @@ PAIR_RULES = [
     ("modules", "event", lambda a, b: a in TREE_MODULES and b == "removal", "as above"),
     ("modules", "post", lambda a, b: a in TREE_MODULES and b == "remove", "as above"),
     ("edit", "integ", lambda a, b: a == "recalc_flag" and b not in ("whfast_jacobi", "whfast_dh", "whfast_whds", "whfast_corr11", "whfast_lazy", "mercurius", "janus"), "documented recalculation flags exist for WHFast, MERCURIUS, JANUS"),
+    ("path", "gap", lambda a, b: (a in ARCHIVE_PATHS) != (b != "na"), "the gap between two snapshots exists only on the archive restore paths"),
+    ("gap", "modules", lambda a, b: a == "remove_step" and b in TREE_MODULES, "REBOUND cannot remove a particle in a tree and keep the particles sorted (rejected)"),
+    ("gap", "var", lambda a, b: a == "remove_step" and b != "none", "removing real particles while variational particles exist is rejected"),
+    ("gap", "ku", lambda a, b: a in ("remove_step", "switch_reset_step") and b == 1, "keep_unsynchronized=1: edits of the particles are ignored by design"),
     ("kind", "path", lambda a, b: a == "twin" and b in ("sa_index", "sim_file_snapshot", "bytes_archive"), "the two-snapshot archive paths advance the original inside the path: no never-saved twin"),
     ("modules", "dtsign", lambda a, b: a in COLLIDE_MODULES and b == "-", "line / tree collision searches with dt<0 are another property's matter (C13)"),
     ("modules", "call", lambda a, b: a in COLLIDE_MODULES and b == "integrate_reverse", "as above"),
@@ -1028,6 +1062,8 @@ def factor_cfg(case):
     if case["ku"] == 1:
         o["keep_unsynchronized"] = 1
     cfg = {"integrator": name, "o": o, "save_after": case["save_after"], "factors": dict(case)}
+    if case.get("gap", "na") != "na":
+        cfg["gap"] = case["gap"]
     mod = case["modules"]
     cfg.update({"planets": {"system": "planets"}, "close": {"system": "close"},
                 "collide_direct_merge": {"system": "collide", "collision": "direct"},
